@@ -96,7 +96,7 @@ def expected_reads(call):
         'query_m': 'q' + m,
         'query_string': 'm=q' + m,
         'hdr': 'h' + m,
-        'cookie': 'c' + m,
+        'cookie': 'shared-cookie' if call.get('static') else 'c' + m,
         'url_arg': None if call.get('static') else m,
         'url': 'http://sim.test' + path_of(call) + '?m=q' + m,
         'fullpath': path_of(call),
@@ -179,7 +179,8 @@ def path_of(call):
 def environ_for(call):
     m = call['m']
     if call.get('static'):
-        return make_environ('GET', '/s', 'm=q' + m, {'X-M': 'h' + m, 'Cookie': 'c=c' + m})
+        # the Cookie header of these requests is byte-identical for every request and every application
+        return make_environ('GET', '/s', 'm=q' + m, {'X-M': 'h' + m, 'Cookie': 'c=shared-cookie'})
     if call.get('bad'):
         # malformed chunked body: reading it raises the process-wide errors_map response (400)
         import io
@@ -320,6 +321,14 @@ def make_handler(ctx, app):
                             f'request {call["m"]} (app {call["app"]}, static route) was given URL arguments '
                             f'{dict(unexpected, **({"m": m} if m is not None else {}))} / url_args {ua}')
             m = call['m']
+            try:
+                ck = sorted(app.request.cookies.items())
+                if ck != [('c', 'shared-cookie')]:
+                    ctx.problem('C10:foreign-request-visible',
+                                f'request {call["m"]} (app {call["app"]}): request.cookies shows {ck} on entry, the request sent c=shared-cookie only')
+                app.request.cookies['who'] = call['m']      # the parsed cookies belong to this request
+            except Exception as e:   # noqa
+                ctx.problem('C10:request-read-error', f'{call["m"]}: request.cookies: {type(e).__name__}: {e}')
             try:
                 app.request.url_args['who'] = call['m']     # e.g. a value passed on for later stages of this request
             except Exception as e:   # noqa
